@@ -224,6 +224,8 @@ def explore_task(pid, tier, idx, prefix, seed):
             break
     from symx.interp import Interp as _I
 
+    res["second"] = dict(V.SECOND["stats"])
+    V.SECOND["stats"].clear()
     if _I.cur is not None:
         res["encoded"] = sorted(_I.cur.encoded)
     res["wall"] = time.time() - t0
@@ -265,6 +267,8 @@ def source_hashes(files):
 
 def run_check(pid, tier, jobs=None):
     t0 = time.time()
+    if tier == "thorough":
+        os.environ.setdefault("VERIF_SECOND_SOLVER", "1")  # read by the worker processes (symx.values.SECOND)
     seed = int(os.environ.get("VERIF_SEED", "0") or 0)
     jobs = jobs or int(os.environ.get("VERIF_JOBS", "0") or 0) or min(16, os.cpu_count() or 4)
     sys.path.insert(0, REPO)
@@ -294,6 +298,7 @@ def run_check(pid, tier, jobs=None):
     encoded = set()
     samples = []
     errors = [pre_error] if pre_error else []
+    second = {}
     violations = []
     notes = []
     budget = float(os.environ.get("VERIF_BUDGET_S", "1500" if tier == "quick" else "10800"))
@@ -320,6 +325,11 @@ def run_check(pid, tier, jobs=None):
                 for k in agg:
                     agg[k] += r[k]
                 encoded.update(r["encoded"])
+                for k2, v2 in r.get("second", {}).items():
+                    if k2 == "disagreements":
+                        errors.extend("second solver: " + d for d in v2)
+                    else:
+                        second[k2] = second.get(k2, 0) + v2
                 samples.extend(r["samples"])
                 notes.extend(r["notes"][:2])
                 st = results.setdefault(i, dict(paths=0, proves=0, wall=0.0))
@@ -435,6 +445,7 @@ def run_check(pid, tier, jobs=None):
                                 wall_s=round(results[i]["wall"], 2))
                            for i in sorted(results, key=lambda i: -results[i]["wall"])][:300],
             known_findings_reported=sorted(reported_known),
+            second_solver=(second or "not sampled in this tier (thorough only)"),
             exhaustive=False,
             jobs=jobs,
         ),
